@@ -2,7 +2,7 @@
 from fractions import Fraction as Fr
 import algebra as A
 from algebra import El, ZERO, ONE
-from core import (Harness, sv, sm, sq, ss, Run, Conv, run_specs, report_dropped, ret_leaves, cmp_struct, single_ret, flat, parse_guard)
+from core import (Harness, sv, sm, sq, ss, Run, Conv, run_specs, report_dropped, ret_leaves, cmp_struct, single_ret, flat, parse_guard, _path_eq_pairs)
 import facts
 import specs
 from specs import TWO_PI
@@ -86,6 +86,10 @@ def check_arc(run, S, name, spec, kw):
                 ok = A.eq(qs, ZERO)
                 run.ob(key + ':half-turn', ok, rule='K3', expected='scalar part 0 (a half turn)', found=A.show(qs.norm() if isinstance(qs, El) else qs), where=where)
                 axis = qv
+            elif A.eq(qs, ZERO):
+                # the half turn written directly as (0, axis)
+                run.ob(key + ':half-turn', True, rule='K3', expected='scalar part 0 (a half turn)', found='0', where=where)
+                axis = qv
             else:
                 c = El.c(Fr(TWO_PI) / 4)
                 cs, sn = A.fn('cos', c), A.fn('sin', c)
@@ -102,9 +106,16 @@ def check_arc(run, S, name, spec, kw):
             disc = [(kind, tid, want) for kind, tid, want in guards if kind == 'switch' and S.terms[tid][0] == 'a' and S.terms[tid][1] == 'discr']
             used_fallback = which == 'from_arc' and any(want == 1 for kind, tid, want in disc)
             if used_fallback:
-                fb = [A.fn('proj', A.fn('proj', A.fn('variant', El.v('a2'), El.c(1)), El.c(0)), El.c(i)) for i in range(3)]
-                ok = all(A.eq(x, y) for x, y in zip(axis, fb))
-                run.ob(key + ':fallback', ok, rule='K1', expected='the caller\'s fallback axis is used unchanged', found=[A.show(x.norm(), 3) for x in axis], where=where)
+                whole = A.fn('proj', A.fn('variant', El.v('a2'), El.c(1)), El.c(0))
+                if isinstance(axis, El):
+                    # the fallback vector moved as one opaque value
+                    ok = A.eq(axis, whole)
+                    shown = [A.show(axis.norm(), 3)]
+                else:
+                    fb = [A.fn('proj', whole, El.c(i)) for i in range(3)]
+                    ok = len(axis) == 3 and all(A.eq(x, y) for x, y in zip(axis, fb))
+                    shown = [A.show(x.norm(), 3) for x in axis]
+                run.ob(key + ':fallback', ok, rule='K1', expected='the caller\'s fallback axis is used unchanged', found=shown, where=where)
             else:
                 perp = A.dot(axis, a)
                 run.ob(key + ':perpendicular', A.eq(perp, ZERO), rule='K4', expected='axis . a = 0 identically', found=A.show(perp.norm(), 4), where=where)
@@ -151,45 +162,35 @@ def check_b2(run, S, name, spec, kw):
         M = M[0]
     key = '%s:%s' % (PROP, name)
     a, b = sv('a0', 2), sv('a1', 2)
-    # recover theta from the cosine entry
-    c00 = M[0][0]
-    th = None
-    lin = c00.norm() if c00.has_defined() else c00
-    if len(lin.t) == 1:
-        (m, coef), = lin.t.items()
-        if coef == 1 and len(m) == 1 and m[0][1] == 1:
-            kd = A.CTX.kind[m[0][0]]
-            if kd[0] == 'fn' and kd[1] == 'cos':
-                th = kd[2][0]
-    if not run.ob(key + ':form', th is not None, rule='K3', expected='a rotation matrix from_angle(theta)', found=A.show(c00), where=where):
-        return
-    s, c = A.fn('sin', th), A.fn('cos', th)
-    exp = specs.rot2(s, c)
-    ok = all(A.eq(M[i][j], exp[i][j]) for i in range(2) for j in range(2))
-    run.ob(key + ':rotation', ok, rule='K3', expected='[[cos, sin], [-sin, cos]] of one angle theta', found='holds' if ok else 'fails', where=where)
-    # theta must be the SIGNED angle from a to b
+    dotab = A.dot(a, b)
+    perp = a[0] * b[1] - a[1] * b[0]
+    n2 = A.dot(a, a) * A.dot(b, b)
+    # a special-case path whose condition forces |a||b| = 0 (a zero vector) lies outside the quantifier (unit vectors)
+    for x_, y_ in _path_eq_pairs(S, getattr(S, 'path_guards', ())):
+        try:
+            d = cv.el(x_) - cv.el(y_)
+            if A.eq(d * d, n2) or A.eq(d, n2) or A.eq(d * d, A.dot(a, a)) or A.eq(d * d, A.dot(b, b)):
+                run.ob(key + ':degenerate-path', True, rule='K5', expected='path taken only for a zero-length input', found=S.show(x_)[:120], where=where, nontrivial=False)
+                return
+        except (ValueError, ZeroDivisionError):
+            pass
+    # sin/cos of atan2(y, x) are normalised to y/r, x/r by the algebra layer, so from_angle(a.angle(b)) and a directly
+    # built matrix have the same form:  [[c, s], [-s, c]],  c^2 + s^2 = 1,  (c, s) = k (a.b, a perp b)  with k > 0
+    c, s_ = M[0][0], M[0][1]
+    form = A.eq(M[1][1], c) and A.eq(M[1][0], -s_)
+    run.ob(key + ':form', form, rule='K3', expected='a rotation matrix [[c, s], [-s, c]]', found=[A.show(x, 4) for x in flat(M)], where=where)
+    unit = A.eq(c * c + s_ * s_, ONE)
+    run.ob(key + ':rotation', unit, rule='K3', expected='c^2 + s^2 = 1', found=A.show((c * c + s_ * s_).norm(), 6), where=where)
     good = False
-    found = A.show(th)
-    t2 = th.norm() if th.has_defined() else th
-    if len(t2.t) == 1:
-        (m, coef), = t2.t.items()
-        if coef == 1 and len(m) == 1 and m[0][1] == 1:
-            kd = A.CTX.kind[m[0][0]]
-            if kd[0] == 'fn' and kd[1] == 'atan2':
-                Y, X = kd[2]
-                dotab = A.dot(a, b)
-                perp = a[0] * b[1] - a[1] * b[0]
-                if A.eq(X, dotab) and A.eq(Y, perp):
-                    good = True
-                else:
-                    try:
-                        kx = (X * A.inv(dotab)).norm()
-                        if A.sign(kx) == 1 and A.eq(Y, perp * kx):
-                            good = True
-                    except ZeroDivisionError:
-                        pass
-    run.ob(key + ':signed-angle', good, rule='K3 (C11 rule for n = 2)', expected='theta = atan2(k perp_dot(a,b), k a.b), k > 0: the signed counter-clockwise angle from a to b (clockwise when b is clockwise of a)',
-           found='theta = %s' % found, where=where)
+    found = '(c, s) = (%s, %s)' % (A.show(c, 6), A.show(s_, 6))
+    try:
+        kx = (c * A.inv(dotab)).norm()
+        if A.sign(kx) == 1 and A.eq(s_, perp * kx):
+            good = True
+    except ZeroDivisionError:
+        pass
+    run.ob(key + ':signed-angle', good, rule='K3 (C11 rule for n = 2)', expected='(cos, sin) = k (a.b, perp_dot(a,b)), k > 0: the signed counter-clockwise angle from a to b (clockwise when b is clockwise of a)',
+           found=found, where=where)
 
 
 def run(tier):
